@@ -30,21 +30,23 @@ from vlib.common import Violation, HarnessError
 
 ID = "C12"
 MANIFEST = {
-    "technique": "property-based testing / fuzzing (Hypothesis) of the C++ layer under AddressSanitizer+UBSan with per-case process isolation: corner-biased operation campaign, invalid-layout campaign over the check/print/convert entry points, and generated operation histories with buffer scribbling after release",
-    "level_text": "Generated-input exploration in three parts. (A) valid layouts biased to zero-length arrays and buffers, size-0/size-1 regular lists and n-d NumpyArrays x the whole operation catalogue with arguments at the corners (n > size, target 0, axes at and beyond the limits, empty carry, empty/overshooting ranges, combination counts up to and beyond what fits in memory or in int64 under RLIMIT_AS): every call must return or raise ValueError/RuntimeError (std::bad_alloc only for explicitly oversized requests), leave every input buffer byte-identical and the input's value unchanged when re-read. (B) arbitrary, possibly invalid descriptions (one documented rule broken, one integer perturbed, or bold random integers / wrong lengths / truncated contents) x validityerror, tostring, type, form, tojson, iteration (to_list), and the conversions: each must return or raise an ordinary exception; out-of-bounds reads are witnessed by ASan on exact-size buffers. (C) histories: programs of derive / drop / re-read steps over arrays built from malloc'ed buffers owned by the harness and from library-owned copies; every survivor must keep the value recorded at creation after its inputs were dropped, other results were derived, and every buffer whose release the bridge reported was overwritten and freed. Crashes, sanitizer reports and hangs are attributed per case by forking. Held on everything generated outside the recorded known findings.",
-    "level_note": "C++ level only (src/libawkward + src/cpu-kernels through the /verif bridge); the pybind11 layer cannot be built here, so Python-level reference counting of buffers is modelled by the bridge's release tokens. Trusted: the bridge and akshim, akmodel.decode as the reader of values. Oversized/overflowing requests run only in the plain flavour (ASan aborts on a failing operator new). Signed overflow of reducers on extreme values and NaN->int casts are not generated.",
+    "technique": "property-based testing / fuzzing (Hypothesis) of the C++ layer under AddressSanitizer+UBSan with per-case process isolation and a per-case watchdog: corner-biased operation campaign, invalid-layout campaign over the check/print/convert entry points, and generated operation histories with buffer scribbling after release",
+    "level_text": "Generated-input exploration in three parts, every case in its own forked process (a signal, sanitizer report or watchdog timeout is attributed to the case; a timeout is re-run once with 10x the budget before it counts as a hang). (A) valid layouts biased to zero-length arrays and buffers, size-0/size-1 regular lists and n-d NumpyArrays x the whole operation catalogue with arguments at the corners (n > size, target 0 / negative / 2**61..2**63-1, axes at and beyond the limits, empty carry, empty/overshooting ranges, combination counts up to and beyond what fits in memory or in int64 under RLIMIT_AS): every call must return or raise ValueError/RuntimeError (std::bad_alloc only for explicitly oversized requests), leave every input buffer byte-identical and the input's value unchanged when re-read; results are printed and converted too. (B) arbitrary, possibly invalid descriptions (one documented rule broken, one integer perturbed, or bold random integers / wrong lengths / truncated contents) x validityerror, tostring, type, form, tojson, iteration (to_list), and the conversions: each must return or raise an ordinary exception; out-of-bounds reads are witnessed by ASan on exact-size buffers. (C) histories: programs of derive / drop / re-read steps over arrays built from malloc'ed buffers owned by the harness and from library-owned copies; every survivor must keep the value recorded at creation after its inputs were dropped, other results were derived, and every buffer whose release the bridge reported was overwritten and freed. Held on everything generated outside the recorded known findings (conversions of invalid layouts that trust list bounds / record lengths / union indices; rpad count overflow).",
+    "level_note": "C++ level only (src/libawkward + src/cpu-kernels through the /verif bridge); the pybind11 layer cannot be built here, so Python-level reference counting of buffers is modelled by the bridge's release tokens. Trusted: the bridge and akshim, akmodel.decode as the reader of values. Oversized/overflowing requests run only in the plain flavour (ASan aborts on a failing operator new), so an overflowing count that yields a small allocation is seen as a crash or wrong value, not as an ASan report. Content::carry is called with in-range positions only (internal building block). Signed overflow of reducers on extreme values and NaN->int casts are not generated. Not exercised: merge/concatenate, setitem_field, ArrayBuilder, from_json, VirtualArray and partitions as operands (other properties), and the 'fails to return' clause only through the watchdog (no case came near it).",
 }
 RULE = ("case = (valid description, operation + corner-biased arguments) | (possibly invalid description, one check/print/convert entry point) | "
         "(1-2 descriptions + a program of <= 30 derive/drop/read steps); non-trivial = the case hits one of the statement's corners "
         "(zero-length array or buffer, regular size 0/1, n > size, target 0, axis at/beyond the limits, empty carry, empty/overshooting range, "
-        "big or oversized n) / the description really breaks a rule below or at the converted node / a result is read after one of its "
+        "big or oversized n or target) / the description really breaks a rule below or at the converted node / a result is read after one of its "
         "inputs was dropped; distinct by hash of the case")
-ASSUMPTIONS = ["std::bad_alloc is accepted only when the request is explicitly oversized (combinations whose count cannot be allocated; invalid layouts holding integers >= 2**24)",
+ASSUMPTIONS = ["std::bad_alloc (MemoryError) is accepted only when the request is explicitly oversized (combinations whose count cannot be allocated; rpad targets that are negative or >= 2**40; invalid layouts holding integers >= 2**24)",
                "oversized and int64-overflowing requests are executed in the plain flavour only, under RLIMIT_AS",
-               "a constructor refusing an invalid description (std::invalid_argument) is an ordinary exception and is tallied"]
+               "a constructor refusing an invalid description (std::invalid_argument) is an ordinary exception and is tallied",
+               "Content::carry (internal) is only called with positions inside the array",
+               "results are measured against /repo plus the pending proposed_fixes 01 and 02 until the coordinator applies them"]
 PLAN = {
     "quick": [{"flavour": "san", "cases": 14000}, {"flavour": "plain", "cases": 8000}],
-    "thorough": [{"flavour": "san", "cases": 700000}, {"flavour": "plain", "cases": 330000}],
+    "thorough": [{"flavour": "san", "cases": 170000}, {"flavour": "plain", "cases": 80000}],
 }
 if os.environ.get("VERIF_C12_SCALE"):     # development aid: shrink the plan
     for _p in PLAN["quick"]:
@@ -301,8 +303,9 @@ def corner_array(draw, cfg=CFG):
     return T, vals, desc
 
 
-CORNER_FAMILIES = ["getitem_at", "getitem_range", "getitem", "num", "flatten", "localindex", "reduce", "sort", "argsort", "rpad", "rpad_and_clip",
-                   "combinations", "carry", "fillna", "numbers_to_type", "unique", "is_unique", "getitem_nothing", "entry", "child",
+CORNER_FAMILIES = ["getitem_at", "getitem_range", "getitem", "getitem", "num", "flatten", "flatten", "localindex", "reduce", "reduce", "reduce", "reduce",
+                   "sort", "sort", "argsort", "argsort", "rpad", "rpad", "rpad_and_clip", "rpad_and_clip",
+                   "combinations", "combinations", "carry", "fillna", "numbers_to_type", "unique", "is_unique", "getitem_nothing", "entry", "entry", "child",
                    "simplify", "deep_copy", "tojson", "type", "form", "validity", "purelist"]
 
 
@@ -373,7 +376,11 @@ def corner_op(draw, T, vals, cls):
     if f in ("sort", "argsort"):
         return {"op": f, "axis": draw(corner_axis(T)), "ascending": draw(st.booleans()), "stable": draw(st.booleans())}
     if f in ("rpad", "rpad_and_clip"):
-        return {"op": f, "target": draw(st.sampled_from([0, 0, 0, 1, 2, n, 7, 50, -1])), "axis": draw(corner_axis(T))}
+        targets = [0, 0, 0, 1, 2, n, 7, 50, -1]
+        if FLAVOUR == "plain":
+            # counts that overflow the sizing formula length * sizeof(item) (2**61 * 8 == 2**64) or that cannot be allocated
+            targets += [2 ** 61, 2 ** 61 + 1, 2 ** 62, 2 ** 63 - 1, 2 ** 40, -2 ** 63]
+        return {"op": f, "target": draw(st.sampled_from(targets)), "axis": draw(corner_axis(T))}
     if f == "combinations":
         return {"op": f, "n": draw(st.sampled_from([0, -1, 1, 2, 3, 4, 5, 5, 6, 8])), "replacement": draw(st.booleans()), "axis": draw(corner_axis(T))}
     if f == "carry":
@@ -510,6 +517,8 @@ def corners(desc, T, vals, spec, rclass):
             out.add("target0")
         if spec["target"] < 0:
             out.add("target_negative")
+        if spec["target"] >= 2 ** 40:
+            out.add("target_overflowing" if spec["target"] >= 2 ** 61 else "target_oversized")
     if op == "carry" and not spec["index"]:
         out.add("carry_empty")
     if op == "getitem_range":
@@ -754,9 +763,16 @@ def invalid_case(draw):
     if draw(st.integers(0, 2)) > 0:
         p = draw(st.sampled_from(paths))
         d = inv.at(d, p)
-    es = entries_for(d["class"])
-    special = es[len(COMMON_ENTRIES):]
-    entry = draw(st.sampled_from(special)) if special and draw(st.booleans()) else draw(st.sampled_from(es))
+    # half of the cases: a class-specific conversion at whichever node has one (non-list nodes weighted up: they are rarer)
+    pairs = []
+    for p, n in inv.nodes(d):
+        for e in entries_for(n["class"])[len(COMMON_ENTRIES):]:
+            pairs += [(p, e)] * (1 if n["class"].startswith(("List", "Regular", "Numpy")) else 3)
+    if pairs and draw(st.booleans()):
+        p, entry = draw(st.sampled_from(pairs))
+        d = inv.at(d, p)
+    else:
+        entry = draw(st.sampled_from(entries_for(d["class"])))
     return {"part": "invalid", "desc": d, "rule": r["rule"], "entry": entry}
 
 
@@ -1239,6 +1255,57 @@ def c12_exclude(case):
         if _safe(fn, case):
             return name
     return None
+
+
+# ---------------------------------------------------------------------- invalid layouts: conversions that trust the layout
+# Entry points that only look at the node structure (never at positions computed from the buffers): a crash there is never known.
+STRUCTURE_ONLY = ("validityerror", "tostring", "typestr", "form_json", "getitem_nothing")
+
+# known finding -> (broken rules '<class family>:<rule>' as computed by local_rules, entry points observed to read or write out
+# of bounds when such a node is present).  An entry that returns an array is followed by printing/tojson of that array, so
+# array-returning entries appear wherever tojson does.
+ARRAY_RETURNING = ("deep_copy", "simplify", "contiguous", "project", "project0", "project1", "toIndexedOptionArray64", "toByteMaskedArray",
+                   "toListOffsetArray64", "toListOffsetArray64_nozero", "toRegularArray")
+INVALID_KNOWN = {
+    "invalid_record_length_unchecked": (
+        ("RecordArray:field_shorter",),
+        ("tojson", "to_list") + ARRAY_RETURNING),
+    "invalid_list_bounds_unchecked_in_conversions": (
+        ("ListArray:negative", "ListArray:beyond_content", "ListArray:start>stop",
+         "ListOffsetArray:negative", "ListOffsetArray:beyond_content", "ListOffsetArray:start>stop"),
+        ("toListOffsetArray64", "toListOffsetArray64_nozero", "toRegularArray")),
+    "invalid_union_index_unchecked_in_project": (
+        ("UnionArray8:index_range", "UnionArray8:tag_range", "UnionArray8:negative", "UnionArray8:index_shorter"),
+        ("project0", "project1")),
+}
+
+
+def invalid_known_name(case):
+    if case.get("part") != "invalid" or case["entry"] in STRUCTURE_ONLY:
+        return None
+    rules = local_rules(case["desc"])
+    for name, (rs, entries) in INVALID_KNOWN.items():
+        if case["entry"] in entries and rules & set(rs):
+            return name
+    return None
+
+
+def _register_invalid(name):
+    KNOWN[name] = lambda case, vio, name=name: (vio.get("bucket", "").startswith("crash:") and _safe(lambda c: invalid_known_name(c) == name, case))
+
+
+for _name in INVALID_KNOWN:
+    _register_invalid(_name)
+
+
+def rpad_count_overflow(case):
+    """rpad / rpad_and_clip below axis 0 size their output as target * (number of lists) (or a sum of max(target, count)) in int64
+    without an overflow check"""
+    spec = case.get("spec", {})
+    return case.get("part") == "corner" and spec.get("op") in ("rpad", "rpad_and_clip") and spec["target"] >= 2 ** 59
+
+
+KNOWN["rpad_count_overflow"] = lambda case, vio: vio.get("bucket", "").startswith("crash:") and _safe(rpad_count_overflow, case)
 
 
 # ====================================================================== runner interface
